@@ -3248,7 +3248,7 @@ class Interp:
                 else:
                     out = join(out, av(STR_S if a[1] == 'str' else BYTES))
             elif is_str_atom(a):
-                out = join(out, av(('str', str_taint(a), None)))
+                out = join(out, av(('str', str_taint(a), 'maybe-size' if (k == 'str' and a[2] == 'maybe-size') else None)))
             elif k in ('list', 'bytes', 'lines'):
                 out = join(out, av(a) if k != 'lines' else av(('list', av(('str', 'u', None)))))
             elif a == TOP or a == EXT:
@@ -3296,7 +3296,7 @@ class Interp:
             elif k == 'c' and a[1] == 'str':
                 out = join(out, av(STR_S))
             elif is_str_atom(a):
-                out = join(out, av(('str', str_taint(a), None)))
+                out = join(out, av(('str', str_taint(a), 'maybe-size' if (k == 'str' and a[2] == 'maybe-size') else None)))
             elif k == 'bytes' or (k == 'c' and a[1] == 'bytes'):
                 out = join(out, av(INT_S))
             elif a == TOP or a == EXT:
